@@ -49,6 +49,7 @@ Step ==
             ELSE Ok /\ UNCHANGED Rest
        [] e.ev = "evolve" ->
             IF ts >= K THEN Fail("evolution-after-last-step")
+            ELSE IF ~hOK THEN Fail("evolution-with-a-hamiltonian-whose-drive-terms-were-never-written")
             ELSE IF e.s2 = 0 - 1
             THEN IF e.center # e.s1 THEN Fail("single-site-evolution-off-centre")
                  ELSE /\ single' = [single EXCEPT ![e.s1] = @ + e.halves] /\ Ok
@@ -69,11 +70,14 @@ Step ==
             ELSE /\ pair' = Zero /\ single' = Zero /\ sweepsInStep' = sweepsInStep + 1 /\ Ok
                  /\ UNCHANGED <<N, K, mode, ts, fillsInStep, fills, lastSave, crashed, resumed, returned, fileGone, hOK, rowTs>>
        [] e.ev = "hmake" ->
-            IF ~e.matOK THEN Fail("interaction-matrix-differs-from-reference") ELSE Ok /\ UNCHANGED Rest
+            \* make_H returns an MPO whose single-atom (drive) slots are empty until update_H fills them
+            IF ~e.matOK THEN Fail("interaction-matrix-differs-from-reference")
+            ELSE /\ hOK' = FALSE /\ Ok
+                 /\ UNCHANGED <<N, K, mode, ts, pair, single, fillsInStep, fills, lastSave, crashed, resumed, returned, fileGone, sweepsInStep, rowTs>>
        [] e.ev = "hupdate" ->
             IF ~e.rowOK THEN Fail("drive-row-differs-from-reference-row-in-site-order")
-            ELSE /\ rowTs' = e.row /\ Ok
-                 /\ UNCHANGED <<N, K, mode, ts, pair, single, fillsInStep, fills, lastSave, crashed, resumed, returned, fileGone, hOK, sweepsInStep>>
+            ELSE /\ rowTs' = e.row /\ hOK' = TRUE /\ Ok
+                 /\ UNCHANGED <<N, K, mode, ts, pair, single, fillsInStep, fills, lastSave, crashed, resumed, returned, fileGone, sweepsInStep>>
        [] e.ev = "updh" ->
             \* timestep_complete increments the step index before rewriting the Hamiltonian and reports `done` afterwards
             IF e.ts # ts + fillsInStep THEN Fail("hamiltonian-updated-for-wrong-step")
@@ -97,6 +101,7 @@ Step ==
             IF e.ts # ts THEN Fail("dmrg-step-index-mismatch")
             ELSE IF ~(e.idx >= 0 /\ e.idx <= N - 2) THEN Fail("dmrg-pair-out-of-range")
             ELSE IF ~(e.center \in {e.idx, e.idx + 1}) THEN Fail("centre-left-the-minimised-pair")
+            ELSE IF ~hOK THEN Fail("evolution-with-a-hamiltonian-whose-drive-terms-were-never-written")
             ELSE IF ~e.energyOK THEN Fail("dmrg-local-energy-below-ground-energy")
             ELSE Ok /\ UNCHANGED Rest
        [] e.ev = "dmrgsweep" ->
